@@ -15,6 +15,10 @@ ENABLED_FEATURES = {'gzip', 'deflate', 'zstd', 'server', 'channel', 'router', 'p
                     'transport', 'tls-ring', 'tls-aws-lc', '_tls-any'}
 
 
+import threading
+TLS = threading.local()   # TLS.isolate = (fn display name, clause label or '__safety__'): clause isolation (DESIGN 2.1)
+
+
 class Infra(Exception):
     """Lost anchor / missing item / unsupported construct: undecided (exit 2), never an alarm."""
 
@@ -650,10 +654,15 @@ class Unit:
         r4_closure_underscore(body)
         r3_ctor_as_fn(body)
         r10_index_mut_from(body)
-        if try_macro:
-            r2_try_in_poll(body, try_macro)
         for e in sig_edits:
             e(sig)
+        if try_macro is None:
+            # R2 is applied to every `?` of a Poll-returning fn (token pattern, not by site)
+            mret = re.search(r'->\s*\(r:\s*(Poll<\s*(Option<\s*)?Result<)', sig.t)
+            if mret:
+                try_macro = 'vtry' if mret.group(2) else 'vtry_r'
+        if try_macro:
+            r2_try_in_poll(body, try_macro)
         for e in body_edits:
             e(body)
         # --- splices ---
@@ -702,6 +711,9 @@ class Unit:
             self._emit('        requires')
             for r in requires:
                 self._emit('            ' + r.strip().rstrip(',') + ',')
+        iso = getattr(TLS, 'isolate', None)
+        if iso and iso[0] == disp:
+            ensures = [c for c in ensures if (c.label if isinstance(c, Clause) else c[0]) == iso[1]]
         if ensures:
             self._emit('        ensures')
             for c in ensures:
